@@ -72,42 +72,27 @@ Proof. exact next_position_inplace_unit. Qed.
 Print Assumptions C08_next_position_inplace.
 
 (* rungekutta4 (preceded by step()'s forward) on a hinge/slide model with plain actuators equals
-   x + h/6 (k1 + 2 k2 + 2 k3 + k4) with the classical intermediate states, for the field
-   (qvel, qacc, act_dot) given by forward() evaluated at the FROZEN time t0; time advances by h *)
+   the classical RK4 method x + h/6 (k1 + 2 k2 + 2 k3 + k4), k_i = f(t0 + c_i h, x + a_i h k_(i-1)),
+   c = (0, 1/2, 1/2, 1), for the time-dependent field (qvel, qacc, act_dot) given by forward():
+   stage i is evaluated at time t0 + c_i h (kernel _rk_stage_time); time advances by h *)
 Theorem C08_rk4_is_classical :
   forall (m : model R) fwd (n na : nat) (d : data R),
     hinge_slide_layout n (joints m) -> plain_acts na (acts m) -> fwd_shape fwd ->
     length (qpos d) = n -> length (qvel d) = n -> length (act d) = na ->
     let d' := step_rk4 m fwd d in
-    (qpos d', qvel d', act d') = frozen_rk4 fwd (timestep m) (time d) (qpos d, qvel d, act d)
+    (qpos d', qvel d', act d') = classical_rk4 fwd (timestep m) (time d) (qpos d, qvel d, act d)
     /\ time d' = time d + timestep m.
 Proof. exact rk4_is_classical. Qed.
 Print Assumptions C08_rk4_is_classical.
 
-(* ... which is the classical RK4 method (nodes 0, 1/2, 1/2, 1) when forward() does not read time *)
-Theorem C08_rk4_is_classical_autonomous :
-  forall (m : model R) fwd (n na : nat) (d : data R),
-    hinge_slide_layout n (joints m) -> plain_acts na (acts m) -> fwd_shape fwd ->
-    (forall q v a t t', fwd q v a t = fwd q v a t') ->
-    length (qpos d) = n -> length (qvel d) = n -> length (act d) = na ->
-    let d' := step_rk4 m fwd d in
-    (qpos d', qvel d', act d') = classical_rk4 fwd (timestep m) (time d) (qpos d, qvel d, act d).
-Proof. exact rk4_is_classical_autonomous. Qed.
-Print Assumptions C08_rk4_is_classical_autonomous.
-
-(* ... and is NOT the classical method when forward() reads time (delayed controls): the code never
-   sets d.time = t0 + c_i h for the intermediate stages.  Witness: qacc = time, h = 1, from rest:
-   classical RK4 gives v = 1/2 (exact), the model of rungekutta4 gives v = 0.  Replayed on the real
-   code by bin/props/C08.py (finding C08:rk4:stage-time). *)
-Theorem C08_rk4_nonautonomous_refuted :
-  exists (m : model R) fwd (d : data R) (n na : nat),
-    hinge_slide_layout n (joints m) /\ plain_acts na (acts m) /\ fwd_shape fwd /\
-    length (qpos d) = n /\ length (qvel d) = n /\ length (act d) = na /\
-    let d' := step_rk4 m fwd d in
-    qvel d' = [0] /\
-    snd (fst (classical_rk4 fwd (timestep m) (time d) (qpos d, qvel d, act d))) = [1 / 2].
-Proof. exact rk4_nonautonomous_refuted. Qed.
-Print Assumptions C08_rk4_nonautonomous_refuted.
+(* worked time-dependent instance (formerly the refutation witness of finding
+   C08:rk4:stage-time-not-advanced, repaired in /repo): qacc = time, h = 1, from rest gives the
+   exact v = 1/2; a method evaluating all stages at t0 would give 0.  The real code is exercised
+   on a delayed control by the directed regression case of bin/props/C08.py. *)
+Theorem C08_rk4_time_dependent_example :
+  qvel (step_rk4 ex_model ex_fwd ex_data) = [1 / 2].
+Proof. exact rk4_time_dependent_example. Qed.
+Print Assumptions C08_rk4_time_dependent_example.
 
 (* non-vacuity of the hypotheses *)
 Example C08_layout_ok_example :
